@@ -58,6 +58,10 @@ def _route_model(cin, zone="America/Chicago"):
             subs[name] = docs.submodel(docs.coeffs("tidd", 10 * (k + 1)))
         over = {"season": {MONTHS[i]: SEASON_NAME[cin["smap"][i]] for i in range(12)},
                 "weekday_weekend": {DAYS[i]: {"wd": "weekday", "we": "weekend"}[cin["wmap"][i]] for i in range(7)}}
+        if zone != "America/Chicago":
+            # the same definitions with their `options` lists given in another order (the names are what they are, whatever their order)
+            over["season"]["options"] = ["winter", "shoulder", "summer"]
+            over["weekday_weekend"]["options"] = ["weekend", "weekday"]
         doc = docs.document(subs, tz=zone, profile="legacy", overrides=over)
         _st["models"][key] = (docs.load(doc), list(subs.keys()))
     return _st["models"][key]
